@@ -5,3 +5,9 @@ import Tv.Thm.C05
 #print axioms Tv.C05.spec_null_iff
 #print axioms Tv.C05.feat_null_iff
 #print axioms Tv.C05.minK_le_eff
+#print axioms Tv.C05.c03_spec_null_below
+#print axioms Tv.C05.c03_minmax_nonnull
+#print axioms Tv.C05.c03_len
+#print axioms Tv.C05.c03_cmp_null_below
+#print axioms Tv.C05.c03_norm_null_below
+#print axioms Tv.C05.c03_minmax_nonnull_at
